@@ -290,7 +290,8 @@ def finding_matcher(f, case):
         # (its value, too, is passed positionally and lands in the tuple)
         npos = len([sp for sp in named(case['sig']) if not sp['kwonly']])
         return bool(case['sig'].get('varpos')) and case['mode'] == 0 and (
-            bool(case['kwargs']) or len(case['args']) < npos or any(sp['kwonly'] for sp in case['sig']['params']))
+            bool(case['kwargs']) or (0 if case['ignore'] else len(case['args'])) < npos + (1 if case['sig']['method'] and case['ignore'] else 0)
+            or any(sp['kwonly'] for sp in case['sig']['params']))      # ignore_input: no positional value arrives at all, not even self
     if mid == 'surplus_positional_without_varargs':
         # K7: strict, no *args, more positionals than positional parameters
         npos = len([sp for sp in named(case['sig']) if not sp['kwonly']])
